@@ -561,11 +561,24 @@ func c15Diff(c *core.Ctx, ld *c15Loaded, ref *c15Ref, kind string) {
 	c.Eval(1)
 	c.Count("diff_runs", 1)
 	c.Cover("diff_ctx_kinds", kind)
-	obs, _, cx := ld.exec(kind, 0, false, ld.cs.Buffered, 0, nil, c15Budget)
+	obs, ip, cx := ld.exec(kind, 0, false, ld.cs.Buffered, 0, nil, c15Budget)
 	cx.cleanup()
 	if obs.sig() == ref.obs.sig() {
 		if ref.obs.out.Steps > 0 {
 			c.NonTrivial("diff|" + kind + "|" + cs.Src + "|" + strconv.Itoa(cs.NRec))
+		}
+		// The call is over and its context has now been cancelled (cleanup): nothing of it may
+		// remain in the Interpreter. Execute on the same Interpreter must equal a fresh Execute.
+		if ip != nil && cx.ctx != nil {
+			c.Eval(1)
+			c.Count("reuse_after_unfired_runs", 1)
+			ip.ResetVars()
+			ip.ResetRand()
+			o3, _, _ := ld.exec("", 0, false, ld.cs.Buffered, 0, ip, c15Budget)
+			if o3.sig() != ref.obs.sig() {
+				c.Violation("reuse-after-unfired-context", cs.Construct+":"+kind, fmt.Sprintf("after ExecuteContext returned (%s context, never fired during the call, cancelled afterwards), Execute on the same Interpreter differs from a fresh Execute", kind),
+					core.Clip(ref.obs.sig(), 1500), core.Clip(o3.sig(), 1500), cs)
+			}
 		}
 		return
 	}
@@ -950,7 +963,7 @@ func init() {
 				"evaluations": n(t, 1500, 150000), "distinct_nontrivial": n(t, 900, 100000),
 				"placements": n(t, 800, 40000), "constructs": len(c15Templates) + len(c15Infinite), "cancel_phase": 10,
 				"ended_ctx-error": n(t, 500, 30000), "ended_natural-end": n(t, 30, 1000), "not_reached": n(t, 30, 1000),
-				"ctx_kinds": 12, "diff_runs": n(t, 150, 3000), "diff_ctx_kinds": len(c15NeverKinds), "reuse_runs": n(t, 100, 5000),
+				"ctx_kinds": 12, "diff_runs": n(t, 150, 3000), "reuse_after_unfired_runs": n(t, 100, 2000), "subprocess_programs": len(c15Subproc), "diff_ctx_kinds": len(c15NeverKinds), "reuse_runs": n(t, 100, 5000),
 				"timer_cases": n(t, 10, 200), "blocked_returned": n(t, 60, 1000), "blocked_forms": len(c15Blocked),
 				"blocked_ended_ctx-error": n(t, 10, 200), "blocked_ended_natural-end": n(t, 10, 200),
 				"recursion_depths": 4, "forin_sizes": n(t, 3, 5), "returned_errors": 2,
@@ -1011,6 +1024,31 @@ func init() {
 					continue
 				}
 				for _, kind := range []string{"cancel", c15Pick(rng, c15NeverKinds)} {
+					c15Diff(c, ld, ref, kind)
+				}
+			}
+			// 4b. never-fired contexts on programs that start child processes
+			for i, sp := range c15Subproc {
+				if !c.Mine(1000 + i) {
+					continue
+				}
+				cs := c15Case{Family: "diff", Construct: sp.construct, Src: sp.src, NRec: sp.nrec}
+				c.Begin(cs)
+				ld, msg := c15Load(c, cs)
+				if ld == nil {
+					c.Inconclusive("subprocess template " + sp.construct + ": " + msg)
+					continue
+				}
+				ref, ok := c15Reference(c, ld)
+				if !ok {
+					continue
+				}
+				if strings.Contains(ref.obs.out.Stdout, "BAD") || ref.obs.out.Err != "" {
+					c.Inconclusive("subprocess template " + sp.construct + ": the plain Execute run is not clean: " + core.Clip(ref.obs.sig(), 300))
+					continue
+				}
+				c.Cover("subprocess_programs", sp.construct)
+				for _, kind := range c15NeverKinds {
 					c15Diff(c, ld, ref, kind)
 				}
 			}
